@@ -1,13 +1,13 @@
 SPECIFICATION MCSpec
 CONSTANTS
- Objs = {1, 2}
+ Objs = {1}
  Mode = "coded"
  Defect = "none"
- Cfgs <- CEagerRel
- MaxCalls = 3
+ Cfgs <- CObsRel
+ MaxCalls = 4
  Rounds = {1, 2}
- Steps = {500, 1000}
- MaxTime = 3000
-INVARIANTS Safety
+ Steps = {1000}
+ MaxTime = 5000
+INVARIANTS QbftRoundHasTime Safety
 VIEW View
 CHECK_DEADLOCK FALSE
